@@ -37,7 +37,8 @@ Inductive sstep :=
 | SPut               (* TaskHandler writes the next task to the pipe *)
 | STake (i : nat)    (* worker i receives a task and acknowledges it *)
 | SFinish (i : nat)  (* worker i finishes its task and sends the result *)
-| SRecv.             (* ResultHandler handles the next message *)
+| SRecv              (* ResultHandler handles the next message *)
+| SClose.            (* the client calls close() (once); later apply_async calls are refused *)
 
 Definition worker_pid (y : sys) (i : nat) : Z := nth i (wlist (par y)) 0.
 
@@ -49,7 +50,8 @@ Definition sys_step (y : sys) (a : sstep) : option sys :=
     | S k =>
       match step (par y) (EApply None None None None) with
       | (s', RNone) => Some (mksys s' k (taskq y ++ [Z.of_nat (length (jobs (par y)))]) (inq y) (wk y) (outq y))
-      | _ => None
+      | (s', RRefused) => Some (mksys s' k (taskq y) (inq y) (wk y) (outq y))   (* after close(): no job *)
+      | _ => None                                                               (* no free slot: the client waits *)
       end
     end
   | SPut =>
@@ -79,6 +81,10 @@ Definition sys_step (y : sys) (a : sstep) : option sys :=
     | MReady j p t :: r =>
       Some (mksys (fst (step (par y) (EReady j None true t))) (todo y) (taskq y) (inq y) (wk y) r)
     end
+  | SClose =>
+    if pstate (par y) =? 0
+    then Some (mksys (fst (step (par y) EClose)) (todo y) (taskq y) (inq y) (wk y) (outq y))
+    else None
   end.
 
 Definition sinit (c : config) (n : nat) : sys :=
@@ -101,6 +107,7 @@ Fixpoint events_of (y : sys) (sched : list sstep) : list event :=
     | Some y' =>
       (match a, outq y with
        | SSubmit, _ => [EApply None None None None]
+       | SClose, _ => [EClose]
        | SRecv, MAck j p :: _ => [EAck j None p]
        | SRecv, MReady j p t :: _ => [EReady j None true t]
        | _, _ => []
@@ -114,13 +121,16 @@ Definition readys (q : list msg) : list Z :=
 (* where the unresolved jobs are *)
 Definition tokens (y : sys) : list Z := taskq y ++ inq y ++ somes (wk y) ++ readys (outq y).
 
-Definition measure (y : sys) : nat :=
+(* the work still to do, apart from calling close() *)
+Definition work (y : sys) : nat :=
   (6 * todo y + 5 * length (taskq y) + 4 * length (inq y) + 2 * length (somes (wk y)) + length (outq y))%nat.
+
+Definition measure (y : sys) : nat := (work y + (if Z.eqb (pstate (par y)) 0 then 1 else 0))%nat.
 
 (* a deterministic scheduler, for evaluation and for generating schedules: the first enabled
    step in a fixed order, rotated by a seed *)
 Definition candidates (y : sys) : list sstep :=
-  [SRecv; SSubmit; SPut] ++ flat_map (fun i => [SFinish i; STake i]) (seq 0 (length (wk y))).
+  [SRecv; SSubmit; SPut; SClose] ++ flat_map (fun i => [SFinish i; STake i]) (seq 0 (length (wk y))).
 
 Fixpoint rotate {A} (n : nat) (l : list A) : list A :=
   match n, l with
@@ -158,6 +168,7 @@ Definition event_eqb (a b : event) : bool :=
   | EApply None None None None, EApply None None None None => true
   | EAck j None p, EAck j' None p' => (j =? j') && (p =? p')
   | EReady j None ok t, EReady j' None ok' t' => (j =? j') && Bool.eqb ok ok' && (t =? t')
+  | EClose, EClose => true
   | _, _ => false
   end.
 
@@ -169,7 +180,7 @@ Definition check_sys_case (c : sys_case) : Z :=
   | None => 7001         (* the implementation took a step that is not enabled in the model *)
   | Some y =>
     if negb (list_eqb event_eqb (events_of (sinit cfg n) sched) evs) then 7002
-    else if maximal && negb (Nat.eqb (measure y) 0) then 7003   (* stuck where the model is not *)
-    else if negb maximal && Nat.eqb (measure y) 0 then 7004     (* not stuck where the model is at the end *)
+    else if maximal && negb (Nat.eqb (work y) 0) then 7003   (* nothing but close() can move, yet the model has work left *)
+    else if negb maximal && Nat.eqb (work y) 0 then 7004     (* work left where the model has none *)
     else Pool.check_case (cfg, evs, os)
   end.
